@@ -11,6 +11,9 @@ from . import env
 EVID = os.environ.get("VERIF_EVIDENCE_DIR") or os.path.join(env.VERIF, "evidence")
 REPLAYS = os.environ.get("VERIF_REPLAY_DIR") or os.path.join(env.VERIF, "replays")
 KNOWN = os.path.join(env.VERIF, "known_findings.json")
+# replay mode (./check <ID> --replay <file>): the check is run again with the tier and seed recorded in the file and only
+# violations carrying the file's signature count; evidence goes to a scratch directory
+REPLAY_FILE = os.environ.get("VERIF_REPLAY_FILE")
 
 
 def _jsonable(o):
@@ -40,6 +43,14 @@ class Run:
     def __init__(self, pid, level, tier=None, seed=None):
         self.pid = pid
         self.level = level
+        self.replay = None
+        if REPLAY_FILE:
+            with open(REPLAY_FILE) as f:
+                self.replay = json.load(f)
+            if self.replay.get("property") != pid:
+                raise HarnessError("replay file is for %s, not %s" % (self.replay.get("property"), pid))
+            tier = self.replay.get("tier", tier)
+            seed = self.replay.get("seed", seed)
         self.tier = tier or os.environ.get("VERIF_TIER", "quick")
         if self.tier not in ("quick", "thorough"):
             self.tier = "quick"
@@ -89,7 +100,21 @@ class Run:
             self.cov["samples"].append(s)
 
     # ---------------------------------------------------------------- finish
+    def finish_replay(self):
+        want = dumps(self.replay["signature"], sort_keys=True)
+        hits = [(sg, cs) for sg, cs in self.violations if dumps(sg, sort_keys=True) == want]
+        print("replay of %s (tier=%s seed=%d): signature %s" % (REPLAY_FILE, self.tier, self.seed, want[:400]))
+        if not hits:
+            print("replay: the recorded violation is NOT reproduced on this tree (%d other violating cases)" % len(self.violations))
+            return 0
+        print("replay: reproduced, %d case(s) with this signature; first case:" % len(hits))
+        print(dumps(hits[0][1], indent=1, sort_keys=True)[:3000])
+        print("VIOLATION property=%s replay=%s" % (self.pid, REPLAY_FILE))
+        return 1
+
     def finish(self, extra_cov=None, exhaustive=None):
+        if self.replay is not None:
+            return self.finish_replay()
         os.makedirs(EVID, exist_ok=True)
         cov = dict(self.cov)
         if extra_cov:
@@ -128,7 +153,7 @@ class Run:
                 if key in seen:
                     continue
                 seen.add(key)
-                body = dumps({"property": self.pid, "signature": sig, "case": case}, indent=1, sort_keys=True)
+                body = dumps({"property": self.pid, "tier": self.tier, "seed": self.seed, "signature": sig, "case": case}, indent=1, sort_keys=True)
                 h = hashlib.sha1(body.encode()).hexdigest()[:10]
                 path = os.path.join(REPLAYS, "%s-%s.json" % (self.pid, h))
                 with open(path, "w") as f:
